@@ -41,6 +41,7 @@ where CL03<CS>: Scheme<PubKey = CL03PublicKey, PrivKey = CL03SecretKey, Ciphersu
         if skb.clone().ok().as_ref() != Some(&sk) { env.ctx.violation("C18:roundtrip:sk-bytes", &format!("from_bytes(to_bytes(sk)) != sk ({})", skb.kind()), env.case(&id, json!({}))); }
         if from_json::<CL03PublicKey>(&to_json(&pk)).as_ref() != Some(&pk) || from_json::<CL03SecretKey>(&to_json(&sk)).as_ref() != Some(&sk) { env.ctx.violation("C18:roundtrip:key-json", "serde round trip changes a key", env.case(&id, json!({}))); }
         env.ctx.state(&[id.as_bytes(), b"key"]); env.ctx.class("key pair"); env.ctx.trace();
+        if k == 0 { crate::c13::codec_magnitudes::<CS>(env, &pk.N); }
         for n in 0..=5usize {
             let cid = format!("{}/n_attributes={}", id, n);
             env.ctx.state(&[cid.as_bytes()]);
